@@ -291,9 +291,34 @@ var theT *testing.T
 
 func run(s Script) (res vt.Result) {
 	if p := vt.Bubble(theT, func() { res = runInBubble(s) }); p != "" {
-		res.Failf("bubble did not end cleanly (the call or the session hung): %s", p)
+		if strings.Contains(p, leftoverOnly) {
+			// goroutines left behind after Close are not C09's business (a call that hangs is reported by
+			// "CallTool never returned" in runInBubble)
+			res.Class("teardown_leftover")
+		} else {
+			res.Failf("bubble did not end cleanly (the call or the session hung): %s", p)
+		}
 	}
 	return res
+}
+
+// leftoverOnly is synctest's message when the case itself ran to its end and only blocked goroutines remain
+// (as opposed to "all goroutines in bubble are blocked": the case itself hung).
+const leftoverOnly = "main bubble goroutine has exited but blocked goroutines remain"
+
+// awaitSetup waits for a set-up step (Connect, logging/setLevel) to finish: at once on today's SDK, but a timer on
+// that path (a small delay before the standalone GET, a retry) must not fail the set-up of every case.
+func awaitSetup(ch <-chan error) (err error, ok bool) {
+	for i := 0; i < 30; i++ {
+		synctest.Wait()
+		select {
+		case err = <-ch:
+			return err, true
+		default:
+			time.Sleep(time.Second)
+		}
+	}
+	return nil, false
 }
 
 func runInBubble(s Script) (res vt.Result) {
@@ -342,15 +367,11 @@ func runInBubble(s Script) (res vt.Result) {
 		cs, e = client.Connect(context.Background(), ct, &mcp.ClientSessionOptions{ProtocolVersion: "2025-06-18"})
 		cerr <- e
 	}()
-	synctest.Wait()
-	select {
-	case e := <-cerr:
-		if e != nil {
-			res.Failf("harness: connect: %v", e)
-			return
-		}
-	default:
+	if e, ok := awaitSetup(cerr); !ok {
 		res.Failf("harness: connect did not return")
+		return
+	} else if e != nil {
+		res.Failf("harness: connect: %v", e)
 		return
 	}
 	type callRes struct {
@@ -371,7 +392,7 @@ func runInBubble(s Script) (res vt.Result) {
 	var cr callRes
 	returned := false
 	runaway := false
-	for i := 0; i < 900 && !returned; i++ { // up to 15 virtual minutes: far beyond every back-off budget
+	for i := 0; i < 900 && !returned; i++ { // up to 1 virtual hour (the property fixes no time scale): far beyond every back-off budget
 		synctest.Wait()
 		select {
 		case cr = <-done:
@@ -382,7 +403,11 @@ func runInBubble(s Script) (res vt.Result) {
 				i = 900
 				break
 			}
-			time.Sleep(time.Second)
+			if i < 600 {
+				time.Sleep(time.Second)
+			} else {
+				time.Sleep(10 * time.Second) // coarse steps once nothing happened for 10 minutes
+			}
 		}
 	}
 	if runaway {
@@ -516,7 +541,7 @@ func runInBubble(s Script) (res vt.Result) {
 	// (3) the call
 	resumable := s.IDs
 	if !returned {
-		res.Failf("CallTool never returned (15 minutes of virtual time)")
+		res.Failf("CallTool never returned (1 hour of virtual time)")
 		return finish(res, s, truncated, len(leis), netErrs)
 	}
 	if cr.err == nil {
